@@ -1,3 +1,105 @@
 import Holpy.Common.Sexp
-/- stub: replaced when the C04 model is built -/
-def main : IO Unit := Holpy.lineLoop (fun _ => "bad-op")
+import Holpy.C04.Model
+/-
+Line protocol for the C04 model (one s-expression in, one out):
+  (export PFX PT)               -> (ok (ITEM ...)) | (error KIND)
+  (check PFX CTX TABLE ITEMS)   -> (ok SEQ) | (error KIND)
+  (roundtrip PFX CTX TABLE PT)  -> (ok SEQ NLINES) | (error KIND)        export, then check
+  (depends ID ID)               -> T | F                                 ItemID.can_depend_on
+PFX, ID = (n1 n2 ...)      SEQ = ((h1 h2 ...) c)
+PT   = (atom ID SEQ) | (node RULE ARGS (PT ...) SEQ)      RULE an atom, ARGS a number
+ITEM = (ID RULE ARGS (ID ...) SEQ)
+CTX  = ((ID SEQ) ...)                 sequents of the lines of the enclosing proof
+TABLE = ((RULE ARGS (SEQ ...) SEQ) ...)   finite graph of evalRule; absent -> none
+`same` (the seq_to_id lookup) is structural equality of sequents.
+-/
+open Holpy Holpy.C04
+
+namespace Holpy.C04.Driver
+
+def natsOf (s : Sexp) : Option (List Nat) := do (← s.toList?).mapM Sexp.toNat?
+
+def seqOf : Sexp → Option Seq
+  | .list [hs, c] => do some ⟨← natsOf hs, ← c.toNat?⟩
+  | _ => none
+
+def seqsOf (s : Sexp) : Option (List Seq) := do (← s.toList?).mapM seqOf
+
+partial def ptOf : Sexp → Option PT
+  | .list [.atom "atom", id, sq] => do some (.atom (← natsOf id) (← seqOf sq))
+  | .list [.atom "node", .atom r, a, .list ps, sq] => do
+    some (.node r (← a.toNat?) (← ps.mapM ptOf) (← seqOf sq))
+  | _ => none
+
+def itemOf : Sexp → Option Item
+  | .list [id, .atom r, a, .list ps, sq] => do
+    some ⟨← natsOf id, r, ← a.toNat?, ← ps.mapM natsOf, ← seqOf sq⟩
+  | _ => none
+
+def ctxOf (s : Sexp) : Option (List (ItemId × Seq)) := do
+  (← s.toList?).mapM fun
+    | .list [id, sq] => do some ((← natsOf id), (← seqOf sq))
+    | _ => none
+
+def tableOf (s : Sexp) : Option (List (String × Nat × List Seq × Seq)) := do
+  (← s.toList?).mapM fun
+    | .list [.atom r, a, ths, sq] => do some (r, (← a.toNat?), (← seqsOf ths), (← seqOf sq))
+    | _ => none
+
+def ctxFun (l : List (ItemId × Seq)) (id : ItemId) : Option Seq :=
+  (l.find? (fun e => e.1 == id)).map (·.2)
+
+def tableFun (t : List (String × Nat × List Seq × Seq)) (r : String) (a : Nat) (ths : List Seq) : Option Seq :=
+  (t.find? (fun e => e.1 == r && e.2.1 == a && decide (e.2.2.1 = ths))).map (·.2.2.2)
+
+def idTo (id : ItemId) : Sexp := .list (id.map Sexp.ofNat)
+def seqTo (s : Seq) : Sexp := .list [.list (s.hyps.map Sexp.ofNat), Sexp.ofNat s.concl]
+def itemTo (it : Item) : Sexp :=
+  .list [idTo it.id, .atom it.rule, Sexp.ofNat it.args, .list (it.prevs.map idTo), seqTo it.th]
+
+def errTo : Err → String
+  | .atomRoot => "atom-root"
+  | .dupRoot => "dup-root"
+  | .badCitation => "bad-citation"
+  | .notFound => "not-found"
+  | .ruleFailed => "rule-failed"
+  | .mismatch => "mismatch"
+  | .empty => "empty"
+
+def errLine (e : Err) : String := toString (Sexp.list [.atom "error", .atom (errTo e)])
+
+def handle (line : String) : String :=
+  match Sexp.parse line with
+  | some (.list [.atom "export", pfx, pt]) =>
+    match natsOf pfx, ptOf pt with
+    | some p, some t =>
+      match exportPT sameStruct p t with
+      | .ok items => toString (Sexp.list [.atom "ok", .list (items.map itemTo)])
+      | .error e => errLine e
+    | _, _ => "bad-op"
+  | some (.list [.atom "check", pfx, ctx, tbl, items]) =>
+    match natsOf pfx, ctxOf ctx, tableOf tbl, (do (← items.toList?).mapM itemOf) with
+    | some p, some c, some t, some its =>
+      match checkItems (tableFun t) (ctxFun c) p its with
+      | .ok s => toString (Sexp.list [.atom "ok", seqTo s])
+      | .error e => errLine e
+    | _, _, _, _ => "bad-op"
+  | some (.list [.atom "roundtrip", pfx, ctx, tbl, pt]) =>
+    match natsOf pfx, ctxOf ctx, tableOf tbl, ptOf pt with
+    | some p, some c, some t, some tr =>
+      match exportPT sameStruct p tr with
+      | .error e => errLine e
+      | .ok items =>
+        match checkItems (tableFun t) (ctxFun c) p items with
+        | .ok s => toString (Sexp.list [.atom "ok", seqTo s, Sexp.ofNat items.length])
+        | .error e => errLine e
+    | _, _, _, _ => "bad-op"
+  | some (.list [.atom "depends", a, b]) =>
+    match natsOf a, natsOf b with
+    | some x, some y => toString (Sexp.ofBool (canDependOn x y))
+    | _, _ => "bad-op"
+  | _ => "bad-op"
+
+end Holpy.C04.Driver
+
+def main : IO Unit := Holpy.lineLoop Holpy.C04.Driver.handle
